@@ -164,4 +164,80 @@ def check(run):
     for site in SITES:
         if site[1] not in mods: mods[site[1]] = bcheck.load_units(run, [site[1]])
         groups.append(('C02/site/' + site[0], (lambda cl, site=site: b_site(cl, mods[site[1]], H, site)), ()))
+    mc = bcheck.load_units(run, ['comptonprofiles.c']); mk = bcheck.load_units(run, ['kissel_pe.c'])
+    groups.append(('C02/site/ComptonProfile_Partial', lambda cl: b_cprofile_partial(cl, mc, H), ()))
+    groups.append(('C02/site/CSb_Photo_Partial', lambda cl: b_kissel_partial(cl, mk, H), ()))
     bcheck.run_groups(run, groups)
+
+
+# ----------------------------------------------------------------------------------------- 2b. two-index call sites
+def b_cprofile_partial(cl, mod, H):
+    fn = 'ComptonProfile_Partial'
+    ev = Eval(mod); stub = SplintStub(ev); ev.prims = {'splint': Prim(kind='custom', post=stub)}
+    Z = BitVec('Z', 32); sh = BitVec('shell', 32); pz = Real('pz')
+    r = ev.call(fn, [Z, sh, pz])
+    LOG = ev.uf('m_log', [R], R); EXP = ev.uf('m_exp', [R], R)
+    Z64 = SignExt(32, Z); S64_ = SignExt(32, sh); B0 = BitVecVal(0, 64)
+    NS = ev.uf('NShells_ComptonProfiles|2', [S64, S64], S32)(B0, Z64)
+    NP = ev.uf('Npz_ComptonProfiles|2', [S64, S64], S32)(B0, Z64)
+    OCC = ev.uf('UOCCUP_ComptonProfiles|2|1', [S64] * 3, R)(B0, Z64, S64_)
+    pre = And(Z >= 1, Z <= H['ZMAX'], NS >= 1, sh >= 0, sh < NS, OCC != 0, pz >= 0)
+    fail = And(r.rv == 0, r.errset, r.sets_on_slot == 1, r.overwrites == 0)
+    if len(stub.calls) != 1:
+        cl.note_unsupported('C02/site/%s/calls' % fn, 'expected one splint call, found %d' % len(stub.calls), [fn]); return
+    c = stub.calls[0]
+    cl.add('C02/site/%s/reached' % fn, ev, pre, c['pc'], 'valid (Z, shell with occupancy, pz >= 0) reaches the interpolation', functions=[fn])
+    cl.add('C02/site/%s/guard' % fn, ev, c['pc'], pre, 'interpolation only after all checks', functions=[fn])
+    cl.add('C02/site/%s/tables' % fn, ev, c['pc'], And(table_ptr(ev, c['xa'], 'pz_ComptonProfiles', [Z64]), table_ptr(ev, c['ya'], 'Partial_ComptonProfiles', [Z64, S64_]),
+                                                       table_ptr(ev, c['y2'], 'Partial_ComptonProfiles2', [Z64, S64_]), c['n'] == NP),
+           'splint gets (pz[Z]-1, Partial[Z][shell]-1, Partial2[Z][shell]-1, Npz[Z])', functions=[fn])
+    cl.add('C02/site/%s/abscissa' % fn, ev, c['pc'], c['x'] == LOG(pz + 1), 'abscissa = log(pz+1)', functions=[fn])
+    cl.add('C02/site/%s/result' % fn, ev, And(pre, c['ok']), And(r.rv == EXP(c['y']), Not(r.errset)), 'result = exp(ordinate)', functions=[fn])
+    cl.add('C02/site/%s/propagate' % fn, ev, And(pre, Not(c['ok'])), fail, 'failing interpolation propagated', functions=[fn])
+    cl.add('C02/site/%s/prefail' % fn, ev, Not(pre), And(fail, r.errcode() == 1), 'invalid arguments: error before any profile access', functions=[fn])
+    # occupancy row is read only inside [0, NShells)
+    for pc, kind, obj, path in ev.accesses:
+        if obj.startswith('deref:g:UOCCUP_ComptonProfiles'):
+            idx = path[-1]; idx = BitVecVal(idx, 64) if isinstance(idx, int) else idx
+            ev.oblig.append((pc, And(idx >= 0, idx < SignExt(32, NS)), 'occupancy row read within [0, NShells[Z])'))
+    # DL2: the number of Compton sub-shells of an element never exceeds the declared column count
+    cl.side_obligations('C02/site/%s/side' % fn, ev, functions=[fn], assume=NS <= H['SHELLNUM_C'])
+
+
+def b_kissel_partial(cl, mod, H):
+    fn = 'CSb_Photo_Partial'
+    ev = Eval(mod); stub = SplintStub(ev); ev.prims = {'splint': Prim(kind='custom', post=stub)}
+    Z = BitVec('Z', 32); sh = BitVec('shell', 32); E = Real('E')
+    r = ev.call(fn, [Z, sh, E])
+    LOG = ev.uf('m_log', [R], R); EXP = ev.uf('m_exp', [R], R)
+    Z64 = SignExt(32, Z); S64_ = SignExt(32, sh); B0 = BitVecVal(0, 64)
+    OCC = ev.uf('Electron_Config_Kissel|3', [S64] * 3, R)(B0, Z64, S64_)
+    EDGE_K = ev.uf('EdgeEnergy_Kissel|3', [S64] * 3, R)(B0, Z64, S64_)
+    EDGE_A = ev.uf('EdgeEnergy_arr|3', [S64] * 3, R)(B0, Z64, S64_)
+    NE = ev.uf('NE_Photo_Partial_Kissel|3', [S64] * 3, S32)(B0, Z64, S64_)
+    XK = lambda k: ev.uf('E_Photo_Partial_Kissel|3|1', [S64] * 4, R)(B0, Z64, S64_, BitVecVal(k, 64))
+    YK = lambda k: ev.uf('Photo_Partial_Kissel|3|1', [S64] * 4, R)(B0, Z64, S64_, BitVecVal(k, 64))
+    # which edge table serves the sub-shell: the 28-column general table for K..P5, the Kissel table for Q1..Q3
+    edge = If(sh < H['SHELLNUM'], EDGE_A, EDGE_K)
+    pre = And(Z >= 1, Z <= H['ZMAX'], sh >= 0, sh < H['SHELLNUM_K'], E > 0, OCC >= dbl(1.0E-06), edge > 0, edge <= E)
+    lnE = LOG(E)
+    low = lnE < XK(0)
+    fail = And(r.rv == 0, r.errset, r.sets_on_slot == 1, r.overwrites == 0)
+    if len(stub.calls) != 1:
+        cl.note_unsupported('C02/site/%s/calls' % fn, 'expected one splint call, found %d' % len(stub.calls), [fn]); return
+    c = stub.calls[0]
+    cl.add('C02/site/%s/reached' % fn, ev, And(pre, Not(low)), c['pc'], 'occupied sub-shell at or above its edge, inside the table: interpolation', functions=[fn])
+    cl.add('C02/site/%s/guard' % fn, ev, c['pc'], And(pre, Not(low)), 'interpolation only after all checks', functions=[fn])
+    cl.add('C02/site/%s/tables' % fn, ev, c['pc'], And(table_ptr(ev, c['xa'], 'E_Photo_Partial_Kissel', [Z64, S64_]), table_ptr(ev, c['ya'], 'Photo_Partial_Kissel', [Z64, S64_]),
+                                                       table_ptr(ev, c['y2'], 'Photo_Partial_Kissel2', [Z64, S64_]), c['n'] == NE),
+           'splint gets the knots, ordinates, second derivatives and length of (Z, shell)', functions=[fn])
+    cl.add('C02/site/%s/abscissa' % fn, ev, c['pc'], c['x'] == lnE, 'abscissa = log(E)', functions=[fn])
+    cl.add('C02/site/%s/result' % fn, ev, And(pre, Not(low), c['ok']), And(r.rv == EXP(c['y']), Not(r.errset)), 'result = exp(ordinate)', functions=[fn])
+    cl.add('C02/site/%s/propagate' % fn, ev, And(pre, Not(low), Not(c['ok'])), fail, 'failing interpolation propagated', functions=[fn])
+    m = (YK(1) - YK(0)) / (XK(1) - XK(0))
+    mc = If(m > 1, RealVal(1), If(m < -1, RealVal(-1), m))
+    cl.add('C02/site/%s/extension' % fn, ev, And(pre, low, XK(1) != XK(0)), And(r.rv == EXP(YK(0) + mc * (lnE - XK(0))), Not(r.errset)),
+           'between the edge and the first knot: log-log extension from the first knot with the first-interval slope clamped to [-1, 1] (the one documented extrapolation)', functions=[fn])
+    cl.add('C02/site/%s/prefail' % fn, ev, Not(pre), And(fail, r.errcode() == 1), 'invalid Z/shell/E, unoccupied sub-shell or E below the edge: INVALID_ARGUMENT', functions=[fn])
+    cl.side_obligations('C02/site/%s/side' % fn, ev, functions=[fn], ignore=('fdiv denominator',),
+                        what='table indices within declared dimensions (incl. the edge table for sub-shells Q1..Q3), no NULL dereference')
